@@ -107,6 +107,14 @@ func (s *ChattyStrategy) kernel(ctx context.Context) {
 		prevNextRoundView = *u.NextRound
 	}
 
+	if u.NilVotedRound != nil {
+		// The engine clears its nil-voted round once the update is sent,
+		// so the first update is the only chance to share those precommits.
+		if !s.broadcastPrecommits(ctx, *u.NilVotedRound) {
+			return
+		}
+	}
+
 	for {
 		select {
 		case <-ctx.Done():
